@@ -36,7 +36,7 @@ type AdapterLeg struct {
 	tr frugal.FTransport
 }
 
-func NewAdapterLeg() *AdapterLeg { return &AdapterLeg{St: NewScriptTransport()} }
+func NewAdapterLeg() *AdapterLeg   { return &AdapterLeg{St: NewScriptTransport()} }
 func (a *AdapterLeg) Name() string { return "adapter" }
 func (a *AdapterLeg) Open() (frugal.FTransport, error) {
 	a.tr = frugal.NewAdapterTransport(a.St)
@@ -73,7 +73,7 @@ var natsLegSeq uint64
 var natsLegMu sync.Mutex
 
 func NewNatsLeg(srv *NatsServer) *NatsLeg { return &NatsLeg{Srv: srv} }
-func (n *NatsLeg) Name() string          { return "nats" }
+func (n *NatsLeg) Name() string           { return "nats" }
 func (n *NatsLeg) Open() (frugal.FTransport, error) {
 	var err error
 	if n.client, err = n.Srv.Connect(); err != nil {
@@ -343,7 +343,7 @@ type MuxResult struct {
 	StallDump     string
 	Inconclusive  string
 	HookEvents    int
-	FreshOK       bool   // a fresh request after the schedule was answered
+	FreshOK       bool // a fresh request after the schedule was answered
 	FreshErr      string
 	CorrelationKO string // non-empty: C01 refuted
 }
